@@ -77,6 +77,12 @@ contract(T + "._fold_lenient_enhanced", "C11", params=SCHEMA, callbacks=COERCE, 
                   "invalid-has-no-structure-but-a-trace": LEN_ENS["invalid-has-no-structure-but-a-trace"],
                   "confidence-in-range": "implies(result.valid, result.confidence >= 0.5 and result.confidence <= 0.85 and result.strategy_used == FoldingStrategy.LENIENT)"})
 
+# "the plain and enhanced folds agree on validity and structure": the two lenient folds differ only in which coercion helper they call; the plain
+# helper is the first component of the tracked one (for the same data and schema), so result_data and result_data_tracked above are the same value
+contract(T + "._coerce_types", "C11", params={"data": "any", "schema": "any"},
+         callbacks={"Chaperone._coerce_types_tracked": {"function": "coerce", "returns": "tuple:any;list:str"}}, raises=[], modifies=[],
+         ensures={"plain-coercion-is-the-tracked-coercion": "result == self._coerce_types_tracked(data, schema)[0]"})
+
 REP_ENS = {"valid-carries-validated-repaired-json": "implies(result.valid, json_ok(repaired) and result.structure == from_json(schema, repaired))",
            "invalid-has-no-structure-but-a-trace": "implies(not result.valid, result.structure is None and result.error_trace is not None)"}
 contract(T + "._fold_repair", "C11", params=SCHEMA, callbacks=MV, raises=["RecursionError", "ValueError"], ensures=REP_ENS)
